@@ -39,6 +39,14 @@ SEEDS = {
  'C17-s2': ('C17', 'File::read: the two seek(0, Start) calls replaced by one in front of the allocation', 'Mode::ReadText with the stream not at position 0 when read()/readStr() is called'),
  'C18-s1': ('C18', 'Path::join: the "p1 ends with a separator" fast path moved in front of the "p2 is absolute" check', 'left operand ends with a separator AND right operand is absolute'),
  'C18-s2': ('C18', 'Path::listChildren: the "." / ".." filter tests only the first two characters', 'a directory entry whose name starts with two dots (filesystem clause: outside the claimed part of C18)'),
+ 'C19-s3': ('C19', 'LocaleInfo::get compares the language part in place with strncmp (prefix match for codes)', 'an empty or one-letter language part with a known country ("_GB", "e_GB.UTF-8"): a table answer instead of the fallback'),
+ 'C19-s4': ('C19', 'LocaleInfo::get: memset + memcpy of the country part replaced by strncpy (no terminator, leftovers of the language part stay)', 'a language part longer than the country part ("English_GB"): the fallback for a valid locale'),
+ 'C13-s3': ('C13', 'Node::shrink returns bool and the wildcard loop accumulates with removed = removed || node.shrink(...)', 'two sibling subtrees that both hold removable nodes two or more levels down: the later siblings are never shrunk'),
+ 'C13-s4': ('C13', 'Node::depth() skips children that are empty', 'the deepest stored key lost its subscriptions and is childless: depth() is one less than the longest key exists() reports'),
+ 'C06-s3': ('C06', 'Node::notify: if (levelView.isLeaf() || m_children.empty())', 'a pattern strictly deeper than a subscribed, childless key that matches up to its own depth: that key is notified'),
+ 'C06-s4': ('C06', 'Node::notify: a subject without subscriptions is skipped (m_subject != nullptr && m_subject->hasSubscriptions())', 'a key whose observers were all unsubscribed: the return value no longer counts it'),
+ 'C18-s3': ('C18', 'Path::getParentDirectory cuts after the last non-separator character (find_last_not_of)', 'a directory that ends in two or more separators: the parent of join(d, n) loses more than one separator'),
+ 'C18-s4': ('C18', 'Path::getWorkingDirectory uses a NAME_MAX + 1 buffer', 'a working directory path longer than 255 bytes: getcwd fails, the visitor saves an empty path and never restores'),
 }
 rows = []
 for sid, (prop, what, needs) in SEEDS.items():
